@@ -42,9 +42,9 @@ def build_props(PROPS):
         level_note='IDNA conversion itself is the assumed contract A7. A1. LABELS_ALLOW_UNDERSCORE variant: C17.',
         trusted_base=TB_COMMON, technique=TECH)
     PROPS['C05'] = dict(
-        level='proof', quick=ALL(['is_ipv4', 'is_ipv6', 'is_ipaddr'] + E_LIT), thorough=ALL(['lemma_ipv6']),
-        level_text='is_ipv4 (loop contract, every length) is proved against the IPv4 automaton: YES => accepted by the automaton; conversely dotted quads with non-zero first octet => YES. is_ipv6 is BOUNDED: for inputs of at most 45 bytes its loop is fully unwound (18 iterations, unwinding assertion discharged) and it is shown against the RFC 4291 automaton (YES => accepted; RFC 5321 shapes => YES; dotted-quad tail handed to is_ipv4 from the start of its group); longer IPv6 texts are not covered and the job is not counted as proved. The e-mail functions are proved to accept a literal only as "[" addr "]" with nothing after, v4 by is_ipv4, v6 only after the tag "IPv6:" (or untagged when the first byte is a digit), flags by family.',
-        level_note='BOUNDED PART: is_ipv6 only for address texts of at most 45 bytes (an RFC 4291 address without superfluous leading zeros in a dotted-quad tail has at most 45). strspn models A5, strchr/strrchr A3, tag comparison oracle A6; precondition of is_ipv4/is_ipv6: the closing bracket follows (true at every call site). The converse for IPv6 (RFC 5321 shapes => YES) is stated for inputs the scan reads to the end; that an early NO is always justified is NOT an obligation (an attempt to state it made symbolic execution crawl); job lemma_ipv6 proves the two counting facts that argument needs (at most 7 colons, five hex digits are fatal).',
+        level='proof', quick=ALL(['is_ipv4', 'is_ipv6', 'is_ipaddr'] + E_LIT), thorough=ALL(['lemma_ipv6', 'is_ipv6_anylen']),
+        level_text='is_ipv4 (loop contract, every length) is proved against the IPv4 automaton: YES => accepted by the automaton; conversely dotted quads with non-zero first octet => YES. is_ipv6: its loop runs at most 17 times whatever the input length; it is fully unwound (18 iterations, unwinding assertion discharged) and shown against the RFC 4291 automaton (YES => accepted; RFC 5321 shapes => YES; dotted-quad tail handed to is_ipv4 from the start of its group). The quick tier runs this on inputs of at most 45 bytes (job is_ipv6, labelled bounded, not counted as proved); the thorough tier runs the same contract on inputs of every length (job is_ipv6_anylen, 26 min / 18 GB), which is a complete proof. The e-mail functions are proved to accept a literal only as "[" addr "]" with nothing after, v4 by is_ipv4, v6 only after the tag "IPv6:" (or untagged when the first byte is a digit), flags by family.',
+        level_note='BOUNDED PART (quick tier only): job is_ipv6 covers address texts of at most 45 bytes (an RFC 4291 address without superfluous leading zeros in a dotted-quad tail has at most 45); the thorough tier removes the bound (is_ipv6_anylen). strspn models A5, strchr/strrchr A3, tag comparison oracle A6; precondition of is_ipv4/is_ipv6: the closing bracket follows (true at every call site). The converse for IPv6 (RFC 5321 shapes => YES) is stated for inputs the scan reads to the end; that an early NO is always justified is NOT an obligation (an attempt to state it made symbolic execution crawl); job lemma_ipv6 proves the two counting facts that argument needs (at most 7 colons, five hex digits are fatal).',
         trusted_base=TB_COMMON, technique=TECH)
     PROPS['C07'] = dict(
         level='proof', quick=ALL(['is_tld', 'tld_table', 'email_822_host', 'is_utf8_domain']),
@@ -106,7 +106,7 @@ def build_props(PROPS):
         level='proof',
         quick=ALL(SAFE) + ALL(['utf8_decode_next', 'is_tld', 'is_ipaddr', 'is_utf8_domain', 'eav_is_email', 'eav_free', 'email_822_host', 'email_822_literal'], 'safety')
               + ALL(['eav_init', 'eav_result_free', 'lifecycle']),
-        thorough=ALL(['is_ipv6', 'is_special_domain_A', 'is_special_domain_B', 'email_5321_host', 'email_5322_host', 'email_6531_host', 'email_5321_literal', 'email_5322_literal', 'email_6531_literal', 'is_utf8_domain@idn', 'is_utf8_domain@idnkit'], 'safety')
+        thorough=ALL(['is_ipv6', 'is_ipv6_anylen', 'is_special_domain_A', 'is_special_domain_B', 'email_5321_host', 'email_5322_host', 'email_6531_host', 'email_5321_literal', 'email_5322_literal', 'email_6531_literal', 'is_utf8_domain@idn', 'is_utf8_domain@idnkit'], 'safety')
                  + ALL(['lifecycle@idn', 'lifecycle@idnkit', 'eav_init@idn', 'eav_init@idnkit']),
         level_text='Union of the safety obligations CBMC instruments on the real code under contracts that describe every NUL-terminated input of every length: pointer validity of every access incl. look-behind cp[-1] and look-ahead cp[1]/cp[2]/end[-1] (the input object is exactly is_fresh(s, len+1)), pointer / signed overflow, shifts, division; frames (assigns: nothing but the result object / the eav_t / ghost state); a decreases clause bounded by the input length on every loop (linear termination); abort() unreachable; eav_init establishes every field later calls read; no leak / double free on a whole API history (lifecycle job) and in is_utf8_domain for every IDN outcome. The scanner jobs used here are safety-only variants whose invariants do not mention the functional specification.',
         level_note='quick tier covers the scanners, decoder, is_tld, is_ipaddr, is_utf8_domain, the eav_* API and one e-mail function; is_ipv6, is_special_domain and the other e-mail functions / back ends are in the thorough tier (their functional jobs carry the same safety obligations and run in the quick tiers of C05 / C09 / C01). Not covered: stack depth, real libidn2 internals (A7), allocation failure (A2).',
@@ -136,7 +136,8 @@ def build_props(PROPS):
         level_text='RFC6531_FOLLOW_RFC20: is_6531_local built with the option is proved equal to the automaton whose atom alphabet lacks # ^ ` { | } ~, and a lemma proves that this automaton differs from the default one exactly on those seven characters outside quotes. LABELS_ALLOW_UNDERSCORE: is_ascii_domain built with the option is proved equal to the host automaton with "_" as a letter. RFC6531_FOLLOW_RFC5322: is_6531_local built with the option is proved to follow, as long as only ASCII characters have been read, the RFC 5322 specification automaton that is_5322_local is proved against (both directions, every length), and to accept only input that is well-formed UTF-8 throughout. "Nothing else changes": the option macros occur in no other source file, and the Makefile defaults them OFF / maps ON to -D (text scan).',
         level_note='RFC6531_FOLLOW_RFC5322: what the option does to local parts that contain non-ASCII characters (quoted whitespace next to them, control characters in quotes) is not specified by the contract beyond UTF-8 well-formedness. The option / Makefile facts are text scans, not proof obligations. Combinations of options are not run (the three options touch disjoint #ifdef regions; RFC20 and RFC5322 both act in is_6531_local: the RFC20 cases sit in the unquoted switch, the RFC5322 ones in the quoted branch and the control-character test).',
         trusted_base=TB_COMMON, technique=TECH)
-    NOT_APPLICABLE['C20'] = ('not claimed: only sanitize_utf8 (bin/main.h) has a discharged contract (job cli_sanitize: no write outside the buffer for any text, clean text echoed unchanged); '
-                            'the getline loop of parse_file (bin/main.c) could not be brought within reach - the loop-contract job with stdio/getline/strlen models and a bounded stand-in (2 lines x 4 bytes) both exhausted 12-24 GB '
-                            '(design-probes/cli_parse_file_attempt.c). Without parse_file neither "one verdict per line" nor "agrees with the library" is decided, so nothing is claimed. '
-                            'Three CLI defects found by running the tool were repaired (known_findings.json).')
+    PROPS['C20'] = dict(
+        level='other', quick=ALL(['cli_parse_line', 'cli_sanitize', 'cli_parse_file_bounded', 'cli_main_bounded']),
+        level_text='Mixed: two unbounded contract proofs and two bounded stand-ins. PROVED for every line of every length < 2^31 (job cli_parse_line, the body of the getline loop of parse_file, cut out of bin/main.c mechanically on every run): no access outside the line buffer; a line starting with "#" produces nothing; any other line leads to exactly one call eav_is_email(eav, t, n) with (t, n) the line after the trimming of the property (terminator LF / CRLF, one leading space, one trailing blank; a NUL inside the line ends it), exactly one PASS or FAIL record that agrees with that call and echoes sanitize_utf8(t, n), and the eav_errstr line after a FAIL. PROVED for every text of every length <= 2^31 (job cli_sanitize): sanitize_utf8 never writes outside its growing buffer, returns NUL-terminated text, and echoes text without control characters unchanged. BOUNDED (never counted as proved): the getline loop, prologue and epilogue of parse_file as a whole for files of <= 5 lines of <= 8 bytes (job cli_parse_file_bounded: one record per non-comment line in input order, file closed, every buffer released even though getline re-allocates on each call, no memory error), and main() for <= 2 file arguments (job cli_main_bounded: eav_init, eav_setup on the untouched defaults, one parse_file per argument, eav_free, exit status).',
+        level_note='Why not one proof: DFCC loop contracts cannot carry a heap buffer that one iteration frees / re-allocates and the next one uses ("dynamic allocation is allowed", "ptr is freeable" are not provable after the loop havoc), so the loop of parse_file is split into its body (proved) and the loop skeleton (bounded). What is NOT decided: termination and memory safety of the loop skeleton beyond the bound; that the verdict printed equals the decision of the real library (the check pins the arguments handed to eav_is_email and that the record follows its answer; what eav_is_email decides is C01-C19); stdio itself, locale, real getline (models A8); files with 2^31 or more lines (int counters). The three CLI defects repaired earlier (empty line, one-blank line, long / invalid-UTF-8 line) are each an obligation of these jobs now.',
+        trusted_base=TB_COMMON + ['tools/extract_cli_body.py (the mechanical extraction of the loop body; its rules are must-fire, a mismatch makes the job undecided)'], technique=TECH)
